@@ -98,10 +98,17 @@ IDENTITIES: dict[str, tuple[str, list[str]]] = {
 Viol = tuple[str, str]
 
 
+_MPX: Any = None
+
+
 def _mp() -> Any:
-    import mpmath  # pylint: disable=import-outside-toplevel
-    mpmath.mp.dps = 40
-    return mpmath
+    # a private 40-digit context: mpmath's global context belongs to the library under test
+    global _MPX  # pylint: disable=global-statement
+    if _MPX is None:
+        import mpmath  # pylint: disable=import-outside-toplevel
+        _MPX = mpmath.mp.clone()
+        _MPX.dps = 40
+    return _MPX
 
 
 def _mpf(x: Any) -> Any:
